@@ -5,7 +5,11 @@ ROOT = os.path.dirname(os.path.dirname(os.path.abspath(__file__)))
 props = [json.loads(l) for l in open(os.path.join(ROOT, "properties.jsonl"))]
 BASE = "cd /repo && /venv/bin/python -m pytest -ra -q -p no:cacheprovider --timeout=900 --continue-on-collection-errors"
 TB = ("Lean 4.33.0 kernel; Mathlib v4.33.0; axioms propext, Classical.choice, Quot.sound only (audited by #print axioms on every run); "
-      "the hand-written model is tied to /repo by an exact differential correspondence on generated inputs (trusted: generator coverage); ")
+      "the hand-written model is tied to /repo by an exact differential correspondence on generated inputs (trusted: generator coverage); "
+      "where a kernel is regenerated from the source (route T: closed-form kernels and formulas; route T2: the loop kernels where, "
+      "get_moving_window_changepoints, get_changepoints, make_anomaly_intervals) the translators harness/translate.py and "
+      "harness/translate_loops.py (their reading of NumPy / Python, with the type annotations they list) are trusted and validated "
+      "on every run through the driver against the real functions; ")
 # id -> (technique, level text, level note, design ref)
 CLAIMS = {}
 exec(open(os.path.join(ROOT, "tools", "claims.py")).read())
